@@ -46,6 +46,9 @@ func configure() {
 	constants.StakeTimeUnitSec = 20
 	constants.StakeTimeMinSec = 20
 	constants.StakeTimeMaxSec = 240
+	// a pillar can be revoked 20 s after its registration (and at any time afterwards)
+	constants.PillarEpochLockTime = 20
+	constants.PillarEpochRevokeTime = 1 << 40
 }
 
 var rewardContracts = []types.Address{types.PillarContract, types.SentinelContract, types.StakeContract, types.LiquidityContract}
@@ -233,6 +236,25 @@ func init() {
 	ops.Calls["sentinel-collect"] = func(o ops.Op) *nom.AccountBlock {
 		return &nom.AccountBlock{BlockType: nom.BlockTypeUserSend, Address: ops.Users[o.A].Address, ToAddress: types.SentinelContract, TokenStandard: types.ZnnTokenStandard, Amount: big.NewInt(0), Data: definition.ABICommon.PackMethodPanic(definition.CollectRewardMethodName)}
 	}
+	// Q: a read-only consensus query in the middle of an epoch, as the pillar RPC does (pillar weights, statistics of
+	// every epoch up to the current, unfinished one, the next producers). It must not influence what is credited.
+	ops.Extra["Q"] = func(n *vnode.Node, o ops.Op) string {
+		n.ConsensusDigest(3)
+		// the query leaves no trace in the ledger, but it does touch the consensus module's in-memory caches: the heights at
+		// which queries were made are part of the explored state (see KeyExtra), otherwise the search would merge a history
+		// with a query into one without it and never explore its continuation
+		queried[n] = append(queried[n], n.Height())
+		return "ok"
+	}
+	// RevokeP3: pillar 3's owner revokes it (the set of producing pillars shrinks in the middle of an epoch)
+	ops.Extra["RevokeP3"] = func(n *vnode.Node, o ops.Op) string {
+		_, err := n.Submit(&nom.AccountBlock{BlockType: nom.BlockTypeUserSend, Address: ops.Users[12].Address, ToAddress: types.PillarContract,
+			TokenStandard: types.ZnnTokenStandard, Amount: big.NewInt(0), Data: definition.ABIPillars.PackMethodPanic(definition.RevokeMethodName, "TEST-pillar-znn")})
+		if err != nil {
+			return "err:" + err.Error()
+		}
+		return "ok"
+	}
 	// M3: three momentums in a row (macro step so that epoch boundaries are reachable inside the depth bound)
 	ops.Extra["M3"] = func(n *vnode.Node, o ops.Op) string {
 		for i := 0; i < 3; i++ {
@@ -280,6 +302,8 @@ func alphabet(thorough bool) []ops.Op {
 		{K: "Call", S: "stake-collect", A: 1},
 		{K: "Call", S: "pillar-collect", A: 10},
 		{K: "Call", S: "pillar-collect", A: 0}, // a delegator
+		{K: "Q"},
+		{K: "RevokeP3"},
 	}
 	if thorough {
 		a = append(a,
@@ -295,6 +319,9 @@ func alphabet(thorough bool) []ops.Op {
 func bases() []hx.Base {
 	five := []ops.Op{M, M, M, M}
 	return []hx.Base{
+		// pillar 3 is revoked in epoch 0; the base ends inside the second period of epoch 1, the first period of which is the
+		// last one that still contains the revoked pillar
+		{Name: "pillar-revoked/second-period-of-next-epoch", Prefix: []ops.Op{M, M, {K: "RevokeP3"}, M, M, {K: "M3"}, M, M}},
 		{Name: "before-first-epoch-end", Prefix: append([]ops.Op{{K: "Call", S: "stake", A: 1, V: 10, B: 1}, {K: "Call", S: "delegate", A: 2, B: 1}}, five...)},
 		{Name: "two-epochs-in", Prefix: append(append(append([]ops.Op{{K: "Call", S: "stake", A: 1, V: 10, B: 1}, {K: "Call", S: "sentinel-deposit-qsr", A: 5, V: 50000}}, five...),
 			ops.Op{K: "Call", S: "sentinel-register", A: 5}), append(five, M, M, M, M)...)},
@@ -335,7 +362,7 @@ func check(c *xs.Ctx, r *xs.Result, s *hx.Step, prev *[2]*snapshot, leaf bool) b
 	}
 	if leaf && ok {
 		// the follower differential depends on the chain only: once per distinct final ledger
-		d := s.Node.FullDigest()
+		d := s.Node.FullDigest() + fmt.Sprint(queried[s.Node])
 		if !leafSeen[d] {
 			leafSeen[d] = true
 			followers(c, r, s)
@@ -345,6 +372,9 @@ func check(c *xs.Ctx, r *xs.Result, s *hx.Step, prev *[2]*snapshot, leaf bool) b
 }
 
 var leafSeen = map[string]bool{}
+
+// queried: per node, the frontier heights at which a read-only consensus query was made
+var queried = map[*vnode.Node][]uint64{}
 
 // followers: node independence at the end of a complete history
 func followers(c *xs.Ctx, r *xs.Result, s *hx.Step) {
@@ -440,7 +470,8 @@ func run(c *xs.Ctx, r *xs.Result) {
 			prev = [2]*snapshot{}
 			check(c, r, &hx.Step{Base: b.Name, Node: n, Op: ops.Op{K: "base"}}, &prev, false)
 		},
-		Check: func(s *hx.Step) bool { return check(c, r, s, &prev, s.Depth == depth) },
+		Check:    func(s *hx.Step) bool { return check(c, r, s, &prev, s.Depth == depth) },
+		KeyExtra: func(n *vnode.Node) string { return fmt.Sprint(queried[n]) },
 	}
 	e.Run()
 	if c.Thorough() && !r.Incomplete {
